@@ -435,6 +435,8 @@ def oracle_fails(pid, op, orc, op_core=None):
         a = orc.get("findalloc")
         if a is not None and a != "0":
             out.append(f"findalloc={a} (heap allocations during a search that finds nothing)")
+        if bad("rb") and "allocates" in orc["rb"]:
+            out.append("rb=" + orc["rb"])
         a = orc.get("cmpalloc")
         if a is not None and a != "0":
             out.append(f"cmpalloc={a} (heap allocations inside the outpoint key comparison)")
@@ -528,6 +530,20 @@ def oracle_fails(pid, op, orc, op_core=None):
     elif pid == "C18":
         if op.startswith("num") and bad("ref"):
             out.append("ref=FAIL")
+        if op.startswith("wrap ") and op_core is not None:
+            # wrapping then unwrapping (by reference and by value) returns the value; the view is its little-endian bytes
+            t = op.split()
+            w = {"u8": 1, "u16": 2, "u32": 4, "i32": 4, "u64": 8}.get(t[1])
+            try:
+                n = int(t[2])
+            except (ValueError, IndexError):
+                n = None
+            if w and n is not None and op_core.startswith("wrap"):
+                d = kv(op_core)
+                if d.get("back") != str(n):
+                    out.append(f"wrap-then-unwrap-of-{n}-gives-{d.get('back', op_core[:40])}")
+                elif d.get("asref") != (n % (1 << (8 * w))).to_bytes(w, "little").hex():
+                    out.append(f"view-of-{n}-is-{d.get('asref')}")
     elif pid == "C19":
         v = bad("rb")
         if v and re.search(r"conversion|as_bitcoin_script", v):
